@@ -275,6 +275,14 @@ def run_impl(case):
         out["group_tpr"] = [[enc(float(v)) for v in row] for row in gs.group_tpr(thr)]
         out["group_fpr"] = [[enc(float(v)) for v in row] for row in gs.group_fpr(thr)]
     out["cm"] = [[int(v) for v in m.reshape(-1)] for m in gs.cm(thr).matrix]
+    # history: a fresh equal object whose LAST group is indexed first; its group-wise results must come in `groups` order too
+    if ngr >= 2:
+        gs2 = GroupScores(pos, neg, pos_groups=pg_in, neg_groups=ng_in, score_class=case["sc"], equal_class=case["ec"],
+                          group_names=names_in, is_sorted=case["is_sorted"])
+        _ = gs2[_lab(case, out["ctor"]["groups"][-1])].pos
+        g4 = gs2.group_cm(thr).matrix
+        out["gcm_after_index"] = [[[int(v) for v in g4[g, j].reshape(-1)] for g in range(ngr)] for j in range(len(thr))]
+        out["group_tpr_after_index"] = [[enc(float(v)) for v in row] for row in gs2.group_tpr(thr)]
     samples = []
     for smp in case["samples"]:
         np.random.seed(smp["seed"])
@@ -479,6 +487,11 @@ def oracle(case, res):
             wn = sorted(x for x, l in srcN if l == g)
             if [F(x) for x in it["pos"]] != wp or [F(x) for x in it["neg"]] != wn:
                 fails.append(("C12/getitem", f"scores[{g}] is not exactly the scores labelled {g}"))
+    if "gcm_after_index" in r and "gcm" in r:
+        if r["gcm_after_index"] != r["gcm"] or r.get("group_tpr_after_index") != r.get("group_tpr"):
+            fails.append(("C12/group-order/after-indexing",
+                          f"on a fresh equal object whose group {c['groups'][-1]!r} was indexed first, group_cm / group_tpr come in another "
+                          f"row order than `groups` = {c['groups']}: {r['gcm_after_index'][0]} vs {r['gcm'][0]} at threshold {thr[0]}"))
     # group_cm = cm of the filtered data; sum over groups = overall matrix; groupwise = metric group by group
     if "gcm" in r:
         labels_ok = len(set(c["groups"])) == len(c["groups"]) and all(l in c["groups"] for _, l in srcP + srcN)
